@@ -74,6 +74,15 @@ func (m *Monitors) betMonitors(c *Chain, o Op, res string, prev, cur *Snap) []st
 	if cur.HouseFee.Cmp(th) != 0 {
 		bad("C01", "house fee collector holds %s but unpaid participations carry %s (after %s)", cur.HouseFee, th, o.Kind)
 	}
+	// once a market is fully settled (its book is marked settled and leaves the queues) nothing may be left in custody for it
+	for mk, bk := range cur.Books {
+		if bk.Status != obtypes.OrderBookStatus_ORDER_BOOK_STATUS_STATUS_SETTLED {
+			continue
+		}
+		if x, ok := owed[mk]; ok && (x[0].Sign() != 0 || x[1].Sign() != 0 || x[2].Sign() != 0) {
+			bad("C01", "market %d is settled (book marked settled) but custody still holds liquidity/stakes %s, bet fees %s, house fees %s for it", uidNum(mk), x[0], x[1], x[2])
+		}
+	}
 	if prev != nil {
 		po := prev.owed()
 		touched := map[string]bool{}
